@@ -691,7 +691,7 @@ VMLoop:
 			// save current sp to come back to same position
 			handler.sp = vm.sp
 			// remove current error if any
-			vm.curFrame.errHandlers.err = nil
+			handler.err = nil
 			// set ip to finally's position
 			vm.ip = pos - 1
 		case OpUnary:
@@ -831,9 +831,9 @@ func (vm *VM) xOpSetupCatch() {
 		hdl := errHandlers.last()
 		hdl.catch = 0
 
-		if errHandlers.err != nil {
-			value = errHandlers.err
-			errHandlers.err = nil
+		if hdl.err != nil {
+			value = hdl.err
+			hdl.err = nil
 		}
 	}
 
@@ -860,9 +860,10 @@ func (vm *VM) xOpThrow() error {
 	case 0: // system
 		errHandlers := vm.curFrame.errHandlers
 		if errHandlers.hasError() {
+			err := errHandlers.last().err
 			errHandlers.pop()
 			// do not put position info to error for re-throw after finally.
-			if err := vm.throw(errHandlers.err, true); err != nil {
+			if err := vm.throw(err, true); err != nil {
 				return err
 			}
 		} else if pos := errHandlers.hasReturnTo(); pos > 0 {
@@ -878,6 +879,10 @@ func (vm *VM) xOpThrow() error {
 			}
 			vm.sp = handler.sp
 			vm.ip = pos - 1
+		} else {
+			// the try statement completed normally, it is not in progress
+			// any more.
+			errHandlers.pop()
 		}
 	case 1: // user
 		obj := vm.stack[vm.sp-1]
@@ -913,7 +918,7 @@ func (vm *VM) throw(err *RuntimeError, noTrace bool) error {
 	}
 
 	// firstly check our frame has error handler
-	if vm.curFrame.errHandlers.hasHandler() {
+	if vm.curFrame.errHandlers.dropExhausted() {
 		return vm.handleThrownError(vm.curFrame, err)
 	}
 
@@ -924,7 +929,7 @@ func (vm *VM) throw(err *RuntimeError, noTrace bool) error {
 	for index >= 0 {
 		f := &(vm.frames[index])
 		err.addTrace(getFrameSourcePos(f))
-		if f.errHandlers.hasHandler() {
+		if f.errHandlers.dropExhausted() {
 			frame = f
 			break
 		}
@@ -952,8 +957,8 @@ func (vm *VM) throw(err *RuntimeError, noTrace bool) error {
 }
 
 func (vm *VM) handleThrownError(frame *frame, err *RuntimeError) error {
-	frame.errHandlers.err = err
 	handler := frame.errHandlers.last()
+	handler.err = err
 
 	// if we have catch>0 goto catch else follow finally (one of them must be set)
 	if handler.catch > 0 {
@@ -1438,15 +1443,35 @@ type errHandler struct {
 	catch    int
 	finally  int
 	returnTo int
+	// err is the error that made control enter this handler's catch or
+	// finally block; it is re-thrown after finally unless it was caught.
+	err *RuntimeError
 }
 
 type errHandlers struct {
 	handlers []errHandler
-	err      *RuntimeError
 }
 
+// hasError reports whether the innermost try statement has a pending error.
 func (t *errHandlers) hasError() bool {
-	return t != nil && t.err != nil
+	h := t.last()
+	return h != nil && h.err != nil
+}
+
+// dropExhausted removes the handlers of try statements whose catch and finally
+// blocks were both entered already (an error raised there belongs to the
+// enclosing statements) and reports whether a handler is left.
+func (t *errHandlers) dropExhausted() bool {
+	if t == nil {
+		return false
+	}
+	for n := len(t.handlers); n > 0; n = len(t.handlers) {
+		if h := &t.handlers[n-1]; h.catch > 0 || h.finally > 0 {
+			return true
+		}
+		t.handlers = t.handlers[:n-1]
+	}
+	return false
 }
 
 func (t *errHandlers) pop() bool {
